@@ -333,6 +333,18 @@ def design(pid, res, tier):
                 res.add("states", o["distinct"]); res.add("transitions", o["states"])
         res.cov["every_T_argument"] = "OneBuffer.tla (one control block, its worker, the I/O thread as a visitor; 1 079 states, complete) satisfies Exclusive / NoUnderflow / LockDiscipline / Retired with and without spurious wake-ups; MC_PipelineProj maps Pipeline.tla onto it per buffer, and TLC checks that refinement on the unbounded-input model for T in {1,2} (thorough: 3) and on every explored code graph (incl. the sampled T = 3,4,8,16 graphs)"
     if pid == "C04":
+        # the per-buffer half of termination for every T: at one buffer every visit of the I/O thread ends, a loaded buffer
+        # is handed back, a retired buffer's worker finishes (strong fairness of the two threads while they are there)
+        for cfg, must in (("MC_OneBuffer_live_TRUE", True), ("MC_OneBuffer_live_FALSE", True), ("MC_OneBuffer_live_neg_notifyR", False), ("MC_OneBuffer_live_neg_notifyU", False)):
+            o = wv.tlc("OneBuffer", cfg=cfg, workers=2, timeout=600)
+            wv.tlc_must_run(o, cfg)
+            if must and not o["ok"]:
+                raise wv.Infra("OneBuffer.tla violates its liveness properties in %s:\n%s" % (cfg, o["out"][-2500:]))
+            if not must and not o["violated"]:
+                raise wv.Infra("negative control %s did not fail" % cfg)
+            if must:
+                res.add("states", o["distinct"]); res.add("transitions", o["states"])
+        res.cov["every_T_argument"] = "OneBuffer.tla under strong fairness of the worker and of the visiting I/O thread: VisitEnds (the I/O thread is never stuck at a buffer), WorkerHandsBack, WorkerEnds - the per-buffer half of <>Done for every T (the other half, a bound on the number of visits, is argued in DESIGN 10.2); negative controls without notify_all fail"
         wv.proofs(res, "ChunkingProofs")       # no load sequence ends in a final buffer without a block (any length, any chunk size)
     res.cov["design_configurations"] = len([r for r in runs if r[1]])
     res.cov["negative_controls_failed_as_expected"] = negs
